@@ -169,6 +169,8 @@ PreLoop(ns, i, pv) ==
   ELSE LET name == ns.ports[i].name
            port == ns.ports[i].p
        IN IF pv.k \notin {"map", "str"} THEN Raise("TypeError")             \* `name not in port_values` on an int / None
+          ELSE IF IsMap(pv) /\ Has(pv, name) /\ port.node = "ns" /\ pv.m[name] = NoneV
+               THEN PreLoop(ns, i, Del(pv, name))                           \* None given for a namespace: "not specified" (as in validate)
           ELSE LET has == IsMap(pv) /\ Has(pv, name)                         \* on a str: substring test, never true for port names
                IN IF ~has /\ port.node = "ns" /\ ~port.pop THEN PreLoop(ns, i + 1, pv)       \* populate_defaults=False: continue
                   ELSE IF ~has /\ ~HasDefault(port) /\ ~(port.node = "ns" /\ Len(port.ports) > 0)
@@ -285,11 +287,19 @@ DefaultLeaves(tree, raw) ==
               /\ \A i \in 1..(Len(p) - 1) : Lookup(raw, SubSeq(p, 1, i)) = Unspec => NodeAt(tree, SubSeq(p, 1, i)).pop}}
 
 NormRaw(raw) == IF raw = NoneV THEN EmptyMap ELSE raw
+\* None given for a declared namespace stands for "not specified": the same as leaving the key out (at every level)
+RECURSIVE StripNone(_, _)
+StripNone(ns, v) ==
+  IF ~IsMap(v) THEN v
+  ELSE LET declared == DeclNames(ns)
+           nones == {n \in Keys(v) \cap declared : PortAt(ns, n).node = "ns" /\ v.m[n] = NoneV}
+       IN Map([n \in Keys(v) \ nones |-> IF n \in declared /\ PortAt(ns, n).node = "ns" THEN StripNone(PortAt(ns, n), v.m[n]) ELSE v.m[n]])
+NormIn(tree, raw) == StripNone(tree, NormRaw(raw))
 
 \* the statements of C11 (res = OnCreate(tree, raw))
-AcceptOK(tree, raw, res)     == (res.exc = "none") <=> Accepts(tree, Completed(tree, NormRaw(raw)))
+AcceptOK(tree, raw, res)     == (res.exc = "none") <=> Accepts(tree, Completed(tree, NormIn(tree, raw)))
 ParsedOK(tree, raw, res)     == res.exc = "none" =>
-                                  LeavesT(tree, res.parsed, <<>>) = LeavesT(tree, NormRaw(raw), <<>>) \cup DefaultLeaves(tree, NormRaw(raw))
+                                  LeavesT(tree, res.parsed, <<>>) = LeavesT(tree, NormIn(tree, raw), <<>>) \cup DefaultLeaves(tree, NormIn(tree, raw))
 FrozenOK(tree, raw, res)     == res.exc = "none" =>
                                   \A q \in NsPaths(tree, <<>>) :
                                      LET x == Lookup(res.parsed, q) IN x # Unspec => IsMap(x) /\ x.fz
